@@ -1,5 +1,5 @@
 /-
-  A small weakest-precondition layer over `run`: `Safe c p s Q` says that running `p` from `s` either returns a
+  A small weakest-precondition layer over `run`: `Post F c p s Q` says that running `p` from `s` either returns a
   value and a state satisfying `Q`, or stops with a model fault that is NOT an out-of-bounds access.
   Used by C10 (the bitmap loader never indexes past its table) and C19.
 -/
@@ -10,18 +10,24 @@ def Fault.isOob : Fault → Bool
   | .oob _ => true
   | _ => false
 
-def Safe {α : Type} (c : Cfg) (p : Prog α) (s : St) (Q : α → St → Prop) : Prop :=
+/-- `Post F c p s Q`: running `p` from `s` returns a value and state satisfying `Q`, or stops with a model fault in `F` -/
+def Post {α : Type} (F : Fault → Prop) (c : Cfg) (p : Prog α) (s : St) (Q : α → St → Prop) : Prop :=
   match run c p s with
   | (.ok a, s') => Q a s'
-  | (.fault f, _) => f.isOob = false
+  | (.fault f, _) => F f
 
-theorem Safe.pure {α : Type} (c : Cfg) (a : α) (s : St) (Q : α → St → Prop) (h : Q a s) :
-    Safe c (Pure.pure a : Prog α) s Q := by
-  unfold Safe; simpa using h
+/-- tolerated faults for the memory-safety statements: anything but an out-of-bounds access -/
+def NoOob : Fault → Prop := fun f => f.isOob = false
+/-- partial correctness: any model fault (fuel, unsupported, …) is tolerated -/
+def AnyFault : Fault → Prop := fun _ => True
 
-theorem Safe.bind {α β : Type} (c : Cfg) (p : Prog β) (k : β → Prog α) (s : St) (Q : α → St → Prop)
-    (h : Safe c p s (fun b s' => Safe c (k b) s' Q)) : Safe c (p >>= k) s Q := by
-  unfold Safe at h ⊢
+theorem Post.pure {F : Fault → Prop} {α : Type} (c : Cfg) (a : α) (s : St) (Q : α → St → Prop) (h : Q a s) :
+    Post F c (Pure.pure a : Prog α) s Q := by
+  unfold Post; simpa using h
+
+theorem Post.bind {F : Fault → Prop} {α β : Type} (c : Cfg) (p : Prog β) (k : β → Prog α) (s : St) (Q : α → St → Prop)
+    (h : Post F c p s (fun b s' => Post F c (k b) s' Q)) : Post F c (p >>= k) s Q := by
+  unfold Post at h ⊢
   rw [run_bind']
   rcases hr : run c p s with ⟨r, s'⟩
   rw [hr] at h
@@ -29,9 +35,9 @@ theorem Safe.bind {α β : Type} (c : Cfg) (p : Prog β) (k : β → Prog α) (s
   | ok b => simpa using h
   | fault f => simpa using h
 
-theorem Safe.mono {α : Type} (c : Cfg) (p : Prog α) (s : St) (Q Q' : α → St → Prop)
-    (h : Safe c p s Q) (hq : ∀ a s', Q a s' → Q' a s') : Safe c p s Q' := by
-  unfold Safe at h ⊢
+theorem Post.mono {F : Fault → Prop} {α : Type} (c : Cfg) (p : Prog α) (s : St) (Q Q' : α → St → Prop)
+    (h : Post F c p s Q) (hq : ∀ a s', Q a s' → Q' a s') : Post F c p s Q' := by
+  unfold Post at h ⊢
   rcases hr : run c p s with ⟨r, s'⟩
   rw [hr] at h
   cases r with
@@ -53,6 +59,28 @@ theorem devWriteRaw_mem (c : Cfg) (vol : Option Nat) (n size : Nat) (b : Bytes) 
     (devWriteRaw c vol n size b s).2.mem = s.mem := by
   unfold devWriteRaw
   have hm : s.tick.2.mem = s.mem := rfl
+  generalize s.tick = t at hm ⊢
+  obtain ⟨fail, s'⟩ := t
+  simp only at hm ⊢
+  split
+  · exact hm
+  · split <;> exact hm
+
+theorem devReadRaw_clock (c : Cfg) (vol : Option Nat) (n size : Nat) (s : St) :
+    (devReadRaw c vol n size s).2.clock = s.clock := by
+  unfold devReadRaw
+  have hm : s.tick.2.clock = s.clock := rfl
+  generalize s.tick = t at hm ⊢
+  obtain ⟨fail, s'⟩ := t
+  simp only at hm ⊢
+  split
+  · exact hm
+  · split <;> exact hm
+
+theorem devWriteRaw_clock (c : Cfg) (vol : Option Nat) (n size : Nat) (b : Bytes) (s : St) :
+    (devWriteRaw c vol n size b s).2.clock = s.clock := by
+  unfold devWriteRaw
+  have hm : s.tick.2.clock = s.clock := rfl
   generalize s.tick = t at hm ⊢
   obtain ⟨fail, s'⟩ := t
   simp only at hm ⊢
@@ -86,32 +114,32 @@ theorem run_volWrite_ok (c : Cfg) (v n : Nat) (b : Bytes) (s : St) :
       · exact ⟨_, _, rfl, devWriteRaw_mem _ _ _ _ _ _⟩
 
 /-- a volume read returns normally and leaves the library's memory alone -/
-theorem Safe.volRead (c : Cfg) (v n : Nat) (s : St) (Q : RC × Bytes → St → Prop)
-    (h : ∀ r s', s'.mem = s.mem → Q r s') : Safe c (Adf.volRead v n) s Q := by
+theorem Post.volRead {F : Fault → Prop} (c : Cfg) (v n : Nat) (s : St) (Q : RC × Bytes → St → Prop)
+    (h : ∀ r s', s'.mem = s.mem → Q r s') : Post F c (Adf.volRead v n) s Q := by
   obtain ⟨r, s', hr, hm⟩ := run_volRead_ok c v n s
-  unfold Safe; rw [hr]; exact h r s' hm
+  unfold Post; rw [hr]; exact h r s' hm
 
-theorem Safe.volWrite (c : Cfg) (v n : Nat) (b : Bytes) (s : St) (Q : RC → St → Prop)
-    (h : ∀ r s', s'.mem = s.mem → Q r s') : Safe c (Adf.volWrite v n b) s Q := by
+theorem Post.volWrite {F : Fault → Prop} (c : Cfg) (v n : Nat) (b : Bytes) (s : St) (Q : RC → St → Prop)
+    (h : ∀ r s', s'.mem = s.mem → Q r s') : Post F c (Adf.volWrite v n b) s Q := by
   obtain ⟨r, s', hr, hm⟩ := run_volWrite_ok c v n b s
-  unfold Safe; rw [hr]; exact h r s' hm
+  unfold Post; rw [hr]; exact h r s' hm
 
-theorem Safe.getVolMem (c : Cfg) (v : Nat) (s : St) (Q : VolMem → St → Prop) (h : Q (s.mem.vol v) s) :
-    Safe c (Adf.getVolMem v) s Q := by
-  unfold Safe; simpa using h
+theorem Post.getVolMem {F : Fault → Prop} (c : Cfg) (v : Nat) (s : St) (Q : VolMem → St → Prop) (h : Q (s.mem.vol v) s) :
+    Post F c (Adf.getVolMem v) s Q := by
+  unfold Post; simpa using h
 
-theorem Safe.getVolCfg (c : Cfg) (v : Nat) (s : St) (Q : VolCfg → St → Prop) (h : Q (c.vol v) s) :
-    Safe c (Adf.getVolCfg v) s Q := by
-  unfold Safe; simpa using h
+theorem Post.getVolCfg {F : Fault → Prop} (c : Cfg) (v : Nat) (s : St) (Q : VolCfg → St → Prop) (h : Q (c.vol v) s) :
+    Post F c (Adf.getVolCfg v) s Q := by
+  unfold Post; simpa using h
 
-theorem Safe.setVolMem (c : Cfg) (v : Nat) (x : VolMem) (s : St) (Q : Unit → St → Prop)
-    (h : Q () { s with mem := s.mem.setVol v x }) : Safe c (Adf.setVolMem v x) s Q := by
-  unfold Safe; simpa using h
+theorem Post.setVolMem {F : Fault → Prop} (c : Cfg) (v : Nat) (x : VolMem) (s : St) (Q : Unit → St → Prop)
+    (h : Q () { s with mem := s.mem.setVol v x }) : Post F c (Adf.setVolMem v x) s Q := by
+  unfold Post; simpa using h
 
-theorem Safe.modVolMem (c : Cfg) (v : Nat) (f : VolMem → VolMem) (s : St) (Q : Unit → St → Prop)
-    (h : Q () { s with mem := s.mem.setVol v (f (s.mem.vol v)) }) : Safe c (Adf.modVolMem v f) s Q := by
+theorem Post.modVolMem {F : Fault → Prop} (c : Cfg) (v : Nat) (f : VolMem → VolMem) (s : St) (Q : Unit → St → Prop)
+    (h : Q () { s with mem := s.mem.setVol v (f (s.mem.vol v)) }) : Post F c (Adf.modVolMem v f) s Q := by
   unfold Adf.modVolMem
-  apply Safe.bind; apply Safe.getVolMem; apply Safe.setVolMem; exact h
+  apply Post.bind; apply Post.getVolMem; apply Post.setVolMem; exact h
 
 @[simp] theorem Mem.vol_setVol (m : Mem) (v : Nat) (x : VolMem) : (m.setVol v x).vol v = x := by
   unfold Mem.setVol Mem.vol
